@@ -95,6 +95,16 @@ impl Report {
 
     /// Writes evidence, prints KNOWN-FINDING / VIOLATION lines, returns the process exit code.
     pub fn finish(mut self) -> i32 {
+        // per-scheme acceptance: every FEC scheme the check offered to add_object must have been accepted at least
+        // once, otherwise the check says nothing about that scheme (a refusal is allowed by the properties)
+        let tally = crate::util::tally_snapshot();
+        if !tally.is_empty() {
+            let m: serde_json::Map<String, Value> = tally.iter().map(|(id, ok, no)| (format!("fec_id_{}", id), json!({"accepted": ok, "refused": no}))).collect();
+            self.coverage.insert("add_object_per_scheme".into(), Value::Object(m));
+            for (id, ok, _) in &tally {
+                self.guard(&format!("objects_accepted_fec_id_{}", id), *ok);
+            }
+        }
         let known = load_known(self.id);
         let mut new_viol = 0;
         let mut known_hit = 0;
